@@ -89,6 +89,18 @@ def gen(seed, tier):
                                           'middle'))])
         else:
             ops.append(['readB'])
+    if r.random() < 0.25:
+        # blob revisions written by undo (back-pointer records with their
+        # own blob file), superseded again, then packed
+        k = r.randrange(3)
+        block = [['write', k, 'w'], ['commit'], ['write', k, 'w'],
+                 ['commit'], ['undo', -1]]
+        if r.random() < 0.5:
+            block += [['undo', -1]]
+        block += [['write', k, r.choice(('w', 'a'))], ['commit'],
+                  ['pack', r.choice(('after_all', 'before_last'))]]
+        at = r.randrange(len(ops) + 1)
+        ops[at:at] = block
     ops += [['commit'], ['readB']]
     return {'kind': kind, 'ops': ops,
             'st_opts': {'pack_gc': r.random() < 0.5,
@@ -569,6 +581,55 @@ class M:
         self.check_reads(self.B, 'observer', committed_only=True)
         self.trace.append('readB')
 
+    def copy_check(self):
+        """C17's blob clause: copying all transactions into another
+        blob-capable storage reproduces every blob revision's file."""
+        if self.kind != 'file':
+            return
+        from ZODB.FileStorage import FileStorage
+        self.A.abort()
+        self.B.abort()
+        dst_dir = self.scratch + '/blobs-copy'
+        dst = FileStorage('/sim/Copy.fs', create=True, blob_dir=dst_dir)
+        try:
+            try:
+                dst.copyTransactionsFrom(self.st)
+            except Exception as e:      # noqa: B902
+                self.flag('blob-copy-raises', 'copyTransactionsFrom raised '
+                          '%s: %s' % (type(e).__name__, str(e)[:80]))
+                return
+            src_files = blob_files(self.blob_dir)
+            dst_files = blob_files(dst_dir)
+            if sorted(src_files) != sorted(dst_files):
+                miss = sorted(set(src_files) - set(dst_files))
+                extra = sorted(set(dst_files) - set(src_files))
+                self.flag('blob-copy-files', 'the copy lacks blob files of '
+                          '%r and has extra ones for %r'
+                          % ([(u64(o), u64(t)) for o, t in miss[:3]],
+                             [(u64(o), u64(t)) for o, t in extra[:3]]))
+            for key, path in src_files.items():
+                p2 = dst_files.get(key)
+                if p2 is None:
+                    continue
+                with open(path, 'rb') as f1, open(p2, 'rb') as f2:
+                    if f1.read() != f2.read():
+                        self.flag('blob-copy-content', 'blob file of (%d, '
+                                  '%d) differs in the copy'
+                                  % (u64(key[0]), u64(key[1])))
+            a = [(t.tid, [(r.oid, r.data) for r in t])
+                 for t in self.st.iterator()]
+            b = [(t.tid, [(r.oid, r.data) for r in t])
+                 for t in dst.iterator()]
+            if a != b:
+                self.flag('blob-copy-records', 'records of the copy differ '
+                          'from the source')
+            self.trace.append('copy')
+        finally:
+            try:
+                dst.close()
+            except Exception:       # noqa: B902
+                pass
+
     def finish(self):
         try:
             self.A.abort()
@@ -612,6 +673,8 @@ def run(case):
                 m.op_readB()
             if len(m.viol) >= 8:
                 break
+        if not m.viol and case.get('copy', True):
+            m.copy_check()
     except Exception as e:      # noqa: B902
         import traceback
         if m is not None:
